@@ -377,3 +377,9 @@ def _stmt_role(at):
 def r5(ctx):
     from . import c13
     c13.r2(ctx)
+
+
+@rule("C09", "R6", "CMP", "repopulation only touches clusters with fewer than 2 points")
+def r6(ctx):
+    from . import c08
+    c08.r2(ctx)
